@@ -156,6 +156,7 @@ func runC04(c *Ctx) {
 
 	c.rule("N9", "a function that holds the removal primitive does not take Exists()==false for 'absent': on that side the path is examined with Lstat/Stat, the error is classified (not-exist or not) and reported when it is not 'absent'", 1)
 	c.rule("N10", "Exists(): where opening a directory fails, 'does not exist' is answered only if the failure says so (the error is classified), never for every failure", 1)
+	c.rule("N11", "an empty path designates no tree: where a removal function tests its path parameter for emptiness, no caller hands it the result of filepath.Clean (which turns \"\" into \".\", the current directory)", 1)
 	c.rule("N8", "in the removal call graph, an error assigned to a variable is read before the variable is overwritten or the function returns: a failed step (cleaning, listing, removing) cannot be covered by the result of the next one", 40)
 
 	c.patternLoopsComplete("N4")
@@ -184,51 +185,7 @@ func runC04(c *Ctx) {
 	// functions whose own path parameter is only listed (obligation on callers)
 	isLister := func(f *ssa.Function) bool { return c04Descents[outermost(f).Name()] }
 
-	for _, f := range fns {
-		c.FuncsSeen[fname(outermost(f))] = true
-		allInstrs(f, func(in ssa.Instruction) {
-			cl, ok := in.(*ssa.Call)
-			if !ok {
-				return
-			}
-			var name string
-			var args []ssa.Value
-			if n, a, ok := fsMethodCall(cl); ok {
-				name, args = n, a
-			} else if g := staticCallee(&cl.Call); g != nil && inPkg(fsPkgRel)(g) && g.Signature.Recv() == nil {
-				name, args = g.Name(), cl.Call.Args
-			} else {
-				return
-			}
-			if !c04Descents[name] {
-				return
-			}
-			// the path argument: first string-typed argument
-			var p ssa.Value
-			for _, a := range args {
-				if a.Type().String() == "string" {
-					p = a
-					break
-				}
-			}
-			if p == nil {
-				return
-			}
-			outer := outermost(f)
-			key := fname(outer) + "/descent:" + name
-			if ok, where := linkGuard(f, p, cl); ok {
-				c.ok("N1", key, c.ipos(cl), "Lstat link test at "+c.ipos(where)+" keeps links out of this descent")
-				return
-			}
-			// listing-only function operating on its own parameter: obligation on the call sites (which are descents themselves)
-			if pi := paramIndex(outer, resolveValue(p)); pi >= 0 && isLister(outer) && f == outer {
-				c.ok("N1", key, c.ipos(cl), "lists its own parameter; the decision to descend is taken (and checked) at the call sites of "+outer.Name())
-				return
-			}
-			// wrappers that only forward their own parameter to the context variant (Rm → RemoveWithContext …) are not decisions
-			c.violate("N1", key, c.ipos(cl), "the decision to descend into this path rests on link-following tests (Exists/IsDir/IsEmpty use Stat): a symbolic link to a directory found in the tree is followed and what lies behind it — outside the tree — is deleted")
-		})
-	}
+	c.c04DescentRule("N1", fns, isLister)
 
 	// ---- N6 -----------------------------------------------------------------
 	// chown / chmod / chtimes follow symbolic links: in the removal call graph they are only applied to a path that was
@@ -315,7 +272,9 @@ func runC04(c *Ctx) {
 			has := false
 			if pi >= 0 {
 				for _, e := range variadicElems(cl.Call.Args[len(cl.Call.Args)-1]) {
-					for _, l := range sources(e, deriveOpts{through: func(nm string) bool { return strings.HasPrefix(nm, "path/filepath.") || strings.HasPrefix(nm, "strings.") || nm == "fmt.Sprintf" }}) {
+					for _, l := range sources(e, deriveOpts{through: func(nm string) bool {
+						return strings.HasPrefix(nm, "path/filepath.") || strings.HasPrefix(nm, "strings.") || nm == "fmt.Sprintf"
+					}}) {
 						if l == ssa.Value(g.Params[pi]) {
 							has = true
 						}
@@ -456,6 +415,101 @@ func runC04(c *Ctx) {
 		})
 	}
 
+	// ---- N11 ----------------------------------------------------------------
+	// "deletes only entries located inside that tree": an empty path (an unset variable, a temporary directory never
+	// created) designates nothing and the removal returns at once — provided the test sees the caller's spelling.
+	// filepath.Clean("") is ".": cleaned before the test, the empty path becomes the current directory.
+	{
+		n := 0
+		for _, f := range fns {
+			if f.Parent() != nil {
+				continue
+			}
+			for pi, prm := range f.Params {
+				if prm.Type().String() != "string" {
+					continue
+				}
+				tested := false
+				for _, r := range *prm.Referrers() {
+					if bo, ok := r.(*ssa.BinOp); ok && (bo.Op == token.EQL || bo.Op == token.NEQ) {
+						other := bo.X
+						if other == ssa.Value(prm) {
+							other = bo.Y
+						}
+						if sv, isS := constString(other); isS && sv == "" {
+							tested = true
+						}
+					}
+				}
+				if !tested {
+					continue
+				}
+				n++
+				bad := ""
+				for _, g := range c.srcFuncs(fsPkgRel) {
+					allInstrs(g, func(in ssa.Instruction) {
+						cc := callCommon(in)
+						if cc == nil || staticCallee(cc) != f {
+							return
+						}
+						ai := pi
+						if len(cc.Args) <= ai {
+							return
+						}
+						if cl, ok := stripConv(cc.Args[ai]).(*ssa.Call); ok {
+							switch calleeFull(&cl.Call) {
+							case "path/filepath.Clean", "path.Clean", "path/filepath.Join", "path/filepath.Abs":
+								if calleeFull(&cl.Call) == "path/filepath.Join" {
+									return // a child path: never empty by construction, and never the caller's spelling
+								}
+								// the caller has itself seen the spelling it cleans: the call lies where that value was found non-empty
+								seen := false
+								raw := cl.Call.Args[0]
+								for _, tb := range g.Blocks {
+									ifi, isIf := tb.Instrs[len(tb.Instrs)-1].(*ssa.If)
+									if !isIf {
+										continue
+									}
+									bo, isB := ifi.Cond.(*ssa.BinOp)
+									if !isB || (bo.Op != token.EQL && bo.Op != token.NEQ) {
+										continue
+									}
+									var other ssa.Value
+									if bo.X == raw {
+										other = bo.Y
+									} else if bo.Y == raw {
+										other = bo.X
+									} else {
+										continue
+									}
+									if sv, isS := constString(other); !isS || sv != "" {
+										continue
+									}
+									nonEmpty := 1
+									if bo.Op == token.NEQ {
+										nonEmpty = 0
+									}
+									if edgeDominates(tb, nonEmpty, in.Block()) {
+										seen = true
+									}
+								}
+								if seen {
+									return
+								}
+								bad = c.ipos(in) + " (" + fname(outermost(g)) + ")"
+							}
+						}
+					})
+				}
+				c.check(bad == "", "N11", fname(f)+"/empty-path-seen-as-given:"+prm.Name(), c.pos(f.Pos()), "no caller cleans the path before the emptiness test",
+					"the path handed over at "+bad+" has been through filepath.Clean, which turns the empty path into \".\": the test for an empty path in "+f.Name()+" can no longer see it, and removing \"\" — an unset variable, say — empties the current directory")
+			}
+		}
+		if n == 0 {
+			c.violate("N11", "filesystem/empty-path-guard", "", "no removal function tests its path for emptiness any more: removing the empty path acts on the current directory")
+		}
+	}
+
 	// ---- N10 ----------------------------------------------------------------
 	// The removal trusts Exists(); Exists() double-checks a directory by opening it. A directory that cannot be opened
 	// (no read permission) is not a directory that is not there.
@@ -559,6 +613,57 @@ func runC04(c *Ctx) {
 // c04LinkTestOnCleanPath (N5). lstat("tree/link/") follows the link (POSIX: a trailing separator forces resolution),
 // so a link test on the caller's own spelling of the path can be made blind. Inside the recursion paths come out of
 // filepath.Join, which cleans; the entry points must clean what they are given before the test.
+// c04DescentRule: every descent (list / recurse) on a path that can be a child is preceded by the Lstat link test of that
+// path (rule N1 of C04; C08 applies it to the same call graph as E11: what lies beneath an excluded entry is not reached
+// through a link elsewhere in the tree).
+func (c *Ctx) c04DescentRule(rule string, fns []*ssa.Function, isLister func(*ssa.Function) bool) {
+	for _, f := range fns {
+		c.FuncsSeen[fname(outermost(f))] = true
+		allInstrs(f, func(in ssa.Instruction) {
+			cl, ok := in.(*ssa.Call)
+			if !ok {
+				return
+			}
+			var name string
+			var args []ssa.Value
+			if n, a, ok := fsMethodCall(cl); ok {
+				name, args = n, a
+			} else if g := staticCallee(&cl.Call); g != nil && inPkg(fsPkgRel)(g) && g.Signature.Recv() == nil {
+				name, args = g.Name(), cl.Call.Args
+			} else {
+				return
+			}
+			if !c04Descents[name] {
+				return
+			}
+			// the path argument: first string-typed argument
+			var p ssa.Value
+			for _, a := range args {
+				if a.Type().String() == "string" {
+					p = a
+					break
+				}
+			}
+			if p == nil {
+				return
+			}
+			outer := outermost(f)
+			key := fname(outer) + "/descent:" + name
+			if ok, where := linkGuard(f, p, cl); ok {
+				c.ok(rule, key, c.ipos(cl), "Lstat link test at "+c.ipos(where)+" keeps links out of this descent")
+				return
+			}
+			// listing-only function operating on its own parameter: obligation on the call sites (which are descents themselves)
+			if pi := paramIndex(outer, resolveValue(p)); pi >= 0 && isLister(outer) && f == outer {
+				c.ok(rule, key, c.ipos(cl), "lists its own parameter; the decision to descend is taken (and checked) at the call sites of "+outer.Name())
+				return
+			}
+			// wrappers that only forward their own parameter to the context variant (Rm → RemoveWithContext …) are not decisions
+			c.violate(rule, key, c.ipos(cl), "the decision to descend into this path rests on link-following tests (Exists/IsDir/IsEmpty use Stat): a symbolic link to a directory found in the tree is followed and what lies behind it — outside the tree — is deleted")
+		})
+	}
+}
+
 func (c *Ctx) c04LinkTestOnCleanPath(fns []*ssa.Function) {
 	for _, f := range fns {
 		allInstrs(f, func(in ssa.Instruction) {
